@@ -44,6 +44,10 @@ pub fn judge(files: &BTreeMap<String, Vec<u8>>, resolve: &Resolve, world: WorldI
             return Err(Failure::new(format!("c-component-does-not-validate {variant}"), format!("the component does not validate ({variant}): {e}\n{ctx}")));
         }
     }
+    let extra = wasmbuild::unassigned_exports(&module, resolve, world).map_err(|e| Failure::new("c-module-unreadable", e))?;
+    if !extra.is_empty() {
+        return Err(Failure::new(format!("c-export-not-in-world {variant}"), format!("the linked module exports {extra:?}, which the component model assigns to no item of the world (the encoder ignores it silently) ({variant})\n{ctx}")));
+    }
     wasmbuild::compare_world(&comp, resolve, world).map_err(|e| {
         let head = e.split(':').next().unwrap_or("").to_string();
         Failure::new(format!("c-world-mismatch {head}"), format!("the component's world differs from the requested one ({variant}): {e}\n{ctx}"))
